@@ -45,6 +45,7 @@ type Session struct {
 	mu        sync.Mutex
 	sconn     net.Conn
 	rawClient net.Conn
+	ProxySide net.Conn // the connection handed to Config.Proxy
 	iw        map[string]int // current initial window announced by each endpoint
 	hdrN      int
 }
@@ -52,12 +53,20 @@ type Session struct {
 // Start builds a session: a loopback pair for the client side, h2.Config.Proxy in a goroutine
 // dialling the TLS server, the preface written in prefacePieces pieces.
 func Start(rec *core.Recorder, srv *Server, dribblePiece, prefacePieces int, factories ...h2.StreamProcessorFactory) (*Session, error) {
+	return StartWrapped(rec, srv, dribblePiece, prefacePieces, nil, factories...)
+}
+
+// StartWrapped is Start with the connection handed to Config.Proxy wrapped by wrap (fault injection).
+func StartWrapped(rec *core.Recorder, srv *Server, dribblePiece, prefacePieces int, wrap func(net.Conn) net.Conn, factories ...h2.StreamProcessorFactory) (*Session, error) {
 	cside, pside, err := Pair()
 	if err != nil {
 		return nil, err
 	}
+	if wrap != nil {
+		pside = wrap(pside)
+	}
 	cfg := &h2.Config{RootCAs: srv.Roots, StreamProcessorFactories: factories}
-	s := &Session{Rec: rec, Closing: make(chan bool), ProxyDone: make(chan error, 1), rawClient: cside, iw: map[string]int{"c": 65535, "s": 65535}}
+	s := &Session{Rec: rec, Closing: make(chan bool), ProxyDone: make(chan error, 1), rawClient: cside, ProxySide: pside, iw: map[string]int{"c": 65535, "s": 65535}}
 	u := &url.URL{Scheme: "https", Host: srv.L.Addr().String(), Path: "/"}
 	srv.Mu.Lock()
 	defer srv.Mu.Unlock()
